@@ -680,17 +680,17 @@ theorem stub_names_are_text_symbols (names) (cfg : Config) (f : File) (h : WFStu
 
 /-! Non-vacuity, and the NEGATIVE witness of findings C12-doc-newline -/
 
-def exCfg : Config := ⟨"avo".toList, none, ['p']⟩
+def exStubCfg : Config := ⟨"avo".toList, none, ['p']⟩
 
-def exFn (name : String) (sig : String) (doc : List String) (pragmas : List Pragma) : Function :=
+def exStubFn (name : String) (sig : String) (doc : List String) (pragmas : List Pragma) : Function :=
   { name := name.toList, attrs := 0#16, frame := 0, args := 0, isa := [],
     stub := ("func " ++ name ++ sig).toList, doc := doc.map String.toList, pragmas := pragmas, nodes := [] }
 
 def exTextFile : File :=
   ⟨true, ["//go:build amd64".toList], [],
-   [.fn (exFn "f" "(x uint64) uint64" ["f does it.", ""] [⟨"noescape".toList, []⟩]), .fn (exFn "g" "()" [] [])]⟩
+   [.fn (exStubFn "f" "(x uint64) uint64" ["f does it.", ""] [⟨"noescape".toList, []⟩]), .fn (exStubFn "g" "()" [] [])]⟩
 
-theorem exTextFile_wf : WFStubs exCfg exTextFile := by
+theorem exTextFile_wf : WFStubs exStubCfg exTextFile := by
   refine ⟨by decide, by decide, by decide, by decide, by decide, ?_⟩
   intro fn hfn
   simp only [exTextFile, File.functions, List.filterMap_cons, List.filterMap_nil, List.mem_cons,
@@ -699,11 +699,11 @@ theorem exTextFile_wf : WFStubs exCfg exTextFile := by
   · exact ⟨by decide, by decide, by decide, ⟨"x uint64) uint64".toList, by decide⟩, by decide⟩
   · exact ⟨by decide, by decide, by decide, ⟨")".toList, by decide⟩, by decide⟩
 
-example : StubTextOK exCfg exTextFile (render (printStubs exCfg exTextFile)) :=
+example : StubTextOK exStubCfg exTextFile (render (printStubs exStubCfg exTextFile)) :=
   stub_text_reads_back _ _ exTextFile_wf
 
 set_option maxRecDepth 8000 in
-example : acceptStubs exCfg exTextFile
+example : acceptStubs exStubCfg exTextFile
     ("// Code generated by avo. DO NOT EDIT.\n\n//go:build amd64\n\npackage p\n\n// f does it.\n//\n//go:noescape\nfunc f(x uint64) uint64\n\nfunc g()\n").toList = "ok" := by
   decide
 
@@ -715,7 +715,7 @@ example : acceptCons exTextFile
 
 /-- The witness of finding C12-doc-newline: `Doc("f doc", "x\nfunc zz()")`. -/
 def exNewlineFile : File :=
-  ⟨false, [], [], [.fn (exFn "f" "(x uint64) uint64" ["f doc", "x\nfunc zz()"] [])]⟩
+  ⟨false, [], [], [.fn (exStubFn "f" "(x uint64) uint64" ["f doc", "x\nfunc zz()"] [])]⟩
 
 /-- **newline_injects_declaration** (negative witness; the hypothesis `WFStubFn.doc`
 of `stub_text_reads_back` cannot be dropped): with a newline inside a doc line the
@@ -723,10 +723,10 @@ bytes of the stub text declare `zz` and `f`, although the file — and hence the
 assembly — has the single function `f`; at the level of structured lines nothing
 is wrong (`parse_stubs` still reads one declaration). -/
 theorem newline_injects_declaration :
-    (∃ ls, textLines? (render (printStubs exCfg exNewlineFile)) = some ls ∧
+    (∃ ls, textLines? (render (printStubs exStubCfg exNewlineFile)) = some ls ∧
       (funcDecls ls []).map (·.1) = ["zz".toList, "f".toList]) ∧
     exNewlineFile.functions.map (·.name) = ["f".toList] ∧
-    acceptStubs exCfg exNewlineFile (render (printStubs exCfg exNewlineFile)) = "bad-declarations" := by
+    acceptStubs exStubCfg exNewlineFile (render (printStubs exStubCfg exNewlineFile)) = "bad-declarations" := by
   refine ⟨⟨_, rfl, ?_⟩, by decide, ?_⟩ <;> decide
 
 /-! The executable hypotheses check run by the driver (`wf-stubs`) is sound. -/
@@ -767,7 +767,7 @@ theorem wfStubsB_sound (cfg : Config) (f : File) (h : wfStubsB cfg f = true) : W
   · rw [hf] at h5; simp at h5
   · exact h5
 
-example : wfStubsB exCfg exTextFile = true := by decide
-example : wfStubsB exCfg exNewlineFile = false := by decide
+example : wfStubsB exStubCfg exTextFile = true := by decide
+example : wfStubsB exStubCfg exNewlineFile = false := by decide
 
 end Avo.Print
